@@ -246,5 +246,23 @@ Theorem C19_poly_trim_canonical : forall T (z : T) (is0 : T -> bool),
   forall p, dense_canonical z (trim is0 p) /\ forall i, nth i (trim is0 p) z = nth i p z.
 Proof. exact (fun T => @trim_spec T). Qed.
 
+(* sparse: exponents strictly increasing, coefficients non-zero; [scoeff p i] = coefficient of x^i *)
+Theorem C19_sparse_eq_iff_same_poly : forall T (z : T) (eqb : T -> T -> bool),
+  (forall x y, eqb x y = true <-> x = y) ->
+  forall p q lo, sparse_canonical z lo p -> sparse_canonical z lo q ->
+  (sparse_eqb eqb p q = true <-> forall i, scoeff z p i = scoeff z q i).
+Proof. exact (fun T => @sparse_eq_iff_same_poly T). Qed.
+
+(* From<DensePolynomial> for SparsePolynomial: canonical, same coefficients *)
+Theorem C19_sparse_of_dense_spec : forall T (z : T) (is0 : T -> bool),
+  (forall x, is0 x = true <-> x = z) ->
+  forall p k, 0 <= k ->
+  sparse_canonical z k (sparse_of_dense is0 k p) /\
+  forall i, scoeff z (sparse_of_dense is0 k p) i = if i <? k then z else nth (Z.to_nat (i - k)) p z.
+Proof. exact (fun T => @sparse_of_dense_spec T). Qed.
+
 Example C19_poly_example : dense_canonical 0 [1; 0; 2] /\ dense_canonical 0 (trim (Z.eqb 0) [1; 0; 2; 0; 0]).
 Proof. exact ex_canonical. Qed.
+Example C19_sparse_example : sparse_canonical 0 0 [(0, 1); (3, 5)] /\
+  sparse_of_dense (Z.eqb 0) 0 [1; 0; 0; 5] = [(0, 1); (3, 5)].
+Proof. exact ex_sparse. Qed.
